@@ -16,13 +16,13 @@ Inductive place := LNo | LRec (r : nat) | LFly (t : nat) | LDisp.
 Record VB := mkVB {
   vb_own : list nat;                          (* records whose thread_id_ is mine *)
   vb_node : option nat;                       (* node of thread_list_ being visited *)
-  vb_new : option nat;                        (* record created by me, not yet on thread_list_ *)
+  vb_new : option (nat * option nat);         (* record created by me, not yet on thread_list_; its next_ *)
   vb_blk : option (nat * bool);               (* a retired block taken from the allocator, not linked; next_ cleared? *)
   vb_limbo : option (option nat * list nat);  (* private chain of retired blocks still to be freed *)
   vb_pend : option nat;                       (* pointer announced by "op 9 p", not yet pushed *)
   vb_freed : list nat;                        (* pointers freed by stage 2, disposer not yet called *)
   vb_full : option nat;                       (* record whose array is full (push returned false), scan pending *)
-  vb_move : option nat;                       (* help_scan: source record *)
+  vb_move : option (nat * option nat);        (* help_scan: source record, block of it to be moved next *)
   vb_cur : option (nat * nat * nat);          (* move_cells: block, index, remaining count *)
   vb_dead : option nat }.                     (* record whose retired array is being torn down (fini) *)
 
@@ -70,16 +70,19 @@ Section InvB.
   Record JO (g : G) (a : AuxB) : Prop := {
     jo_tl : is_tl g (tlist g) (tl a) /\ NoDup (tl a);
     jo_node : forall t h, vb_node (bvs a t) = Some h -> In h (tl a);
-    jo_new : forall t r, vb_new (bvs a t) = Some r ->
-               r < List.length (recs g) /\ ~ In r (tl a) /\ (r_tid (grec g r) = 0 \/ In r (vb_own (bvs a t)));
-    jo_newx : forall t t' r, vb_new (bvs a t) = Some r -> vb_new (bvs a t') = Some r -> t = t';
+    jo_new : forall t r nx, vb_new (bvs a t) = Some (r, nx) ->
+               r < List.length (recs g) /\ ~ In r (tl a) /\ r_next (grec g r) = nx /\
+               (r_tid (grec g r) = 0 \/ In r (vb_own (bvs a t)));
+    jo_newx : forall t t' r nx nx', vb_new (bvs a t) = Some (r, nx) -> vb_new (bvs a t') = Some (r, nx') -> t = t';
     jo_own : forall t r, In r (vb_own (bvs a t)) -> r < List.length (recs g) /\ r_tid (grec g r) = S t }.
 
   Record JK (g : G) (a : AuxB) (fr : list nat) : Prop := {
     jk_blen : forall b, List.length (rbs g) <= b -> rbown a b = RNone;
     jk_cells : forall b, b < List.length (rbs g) -> List.length (rb_cells (grb g b)) = RB;
     jk_free : (forall b, In b fr <-> rbown a b = RFree) /\ NoDup fr;
-    jk_blk : forall t b fl, vb_blk (bvs a t) = Some (b, fl) -> rbown a b = RPriv t /\ (fl = true -> rb_next (grb g b) = None);
+    jk_blk : forall t b fl, vb_blk (bvs a t) = Some (b, fl) ->
+               rbown a b = RPriv t /\ (fl = true -> rb_next (grb g b) = None) /\
+               (forall o lb, vb_limbo (bvs a t) = Some (o, lb) -> ~ In b lb);
     jk_limbo : forall t o lb, vb_limbo (bvs a t) = Some (o, lb) ->
                is_chain c g o lb /\ NoDup lb /\ forall b, In b lb -> rbown a b = RPriv t }.
 
@@ -90,14 +93,17 @@ Section InvB.
                (dead a r = false /\ Rinv c g r (rch a r) (rw a r) /\ (forall b, In b (rch a r) -> rbown a b = RRec r) /\
                 moved a r <= rw a r /\
                 (rw a r < List.length (rch a r) * RB \/ exists t, vb_full (bvs a t) = Some r));
-    jr_mvd : forall r, moved a r <> 0 -> exists t, vb_move (bvs a t) = Some r;
-    jr_move : forall t r, vb_move (bvs a t) = Some r -> In r (vb_own (bvs a t));
+    jr_mvd : forall r, moved a r <> 0 -> exists t ob, vb_move (bvs a t) = Some (r, ob);
+    jr_move : forall t r ob, vb_move (bvs a t) = Some (r, ob) ->
+               In r (vb_own (bvs a t)) /\
+               forall b, ob = Some b -> vb_cur (bvs a t) = None -> exists j, nth_error (rch a r) j = Some b /\ moved a r = j * RB;
     jr_cur : forall t b i n, vb_cur (bvs a t) = Some (b, i, n) ->
-               exists r j, vb_move (bvs a t) = Some r /\ nth_error (rch a r) j = Some b /\
-                           moved a r = j * RB + i /\ i + n <= RB /\ j * RB + i + n <= rw a r;
+               exists r ob j, vb_move (bvs a t) = Some (r, ob) /\ nth_error (rch a r) j = Some b /\
+                           moved a r = j * RB + i /\ i + n <= RB /\ j * RB + i + n <= rw a r /\
+                           i + n = (if oeqb (Some b) (r_cb (grec g r)) then r_cc (grec g r) else RB);
     jr_dead : (forall t r, vb_dead (bvs a t) = Some r -> In r (vb_own (bvs a t)) /\ dead a r = true) /\
               (forall r, dead a r = true -> exists t, vb_dead (bvs a t) = Some r);
-    jr_full : forall t r, vb_full (bvs a t) = Some r -> In r (vb_own (bvs a t)) }.
+    jr_full : forall t r, vb_full (bvs a t) = Some r -> In r (vb_own (bvs a t)) /\ rch a r <> [] }.
 
   Record JW (g : G) (a : AuxB) (ds rt : list nat) : Prop := {
     jw_1 : forall r, r < List.length (recs g) -> NoDup (ec g a r) /\ forall p, In p (ec g a r) -> wh a p = LRec r;
@@ -116,7 +122,7 @@ Section InvB.
     flbad (hist tr) = false -> NoDup (retired_tr tr) -> JB g a tr.
 
   (** ** frames: what each part reads *)
-  Lemma is_tl_frame g g' : List.length (recs g') = List.length (recs g) ->
+  Lemma is_tl_frame g g' : List.length (recs g) <= List.length (recs g') ->
     forall l o, (forall r, In r l -> r_next (grec g' r) = r_next (grec g r)) -> is_tl g o l -> is_tl g' o l.
   Proof.
     intros E. induction l as [|x l IH]; intros o Hn H; cbn in *; auto.
@@ -130,14 +136,14 @@ Section InvB.
     tl a' = tl a -> JO g a -> JO g' a'.
   Proof.
     intros E1 E2 E3 V Et [J1 J2 J3 J4 J5]. constructor.
-    - rewrite Et, E1. split; [|apply J1]. apply is_tl_frame with (g := g); auto. intros r _. apply E3. apply J1.
+    - rewrite Et, E1. split; [|apply J1]. apply is_tl_frame with (g := g); [lia| |apply J1]. intros r _. apply E3.
     - intros t h. destruct (V t) as (_ & -> & _). rewrite Et. apply J2.
-    - intros t r. destruct (V t) as (-> & _ & ->). rewrite Et, E2. destruct (E3 r) as (-> & _). apply J3.
-    - intros t t' r. destruct (V t) as (_ & _ & ->). destruct (V t') as (_ & _ & ->). apply J4.
+    - intros t r nx. destruct (V t) as (-> & _ & ->). rewrite Et, E2. destruct (E3 r) as (-> & ->). apply J3.
+    - intros t t' r nx nx'. destruct (V t) as (_ & _ & ->). destruct (V t') as (_ & _ & ->). apply J4.
     - intros t r. destruct (V t) as (-> & _ & _). rewrite E2. destruct (E3 r) as (-> & _). apply J5.
   Qed.
 
-  Lemma is_chain_frame g g' : List.length (rbs g') = List.length (rbs g) ->
+  Lemma is_chain_frame g g' : List.length (rbs g) <= List.length (rbs g') ->
     forall l o, (forall b, In b l -> rb_next (grb g' b) = rb_next (grb g b) /\
                                  List.length (rb_cells (grb g' b)) = List.length (rb_cells (grb g b))) ->
     is_chain c g o l -> is_chain c g' o l.
@@ -158,13 +164,13 @@ Section InvB.
     - intros b. rewrite E1, E3. apply J1.
     - intros b. rewrite E1. destruct (E2 b) as (_ & ->). apply J2.
     - split; [|apply J3]. intros b. rewrite E3. apply J3.
-    - intros t b fl. destruct (V t) as (-> & _). rewrite E3. destruct (E2 b) as (-> & _). apply J4.
+    - intros t b fl. destruct (V t) as (-> & ->). rewrite E3. destruct (E2 b) as (-> & _). apply J4.
     - intros t o lb. destruct (V t) as (_ & ->). intros H. destruct (J5 t o lb H) as (K1 & K2 & K3).
-      split; [|split; auto]. + apply is_chain_frame with (g := g); auto. + intros b. rewrite E3. apply K3.
+      split; [|split; auto]. + apply is_chain_frame with (g := g); auto. lia. + intros b. rewrite E3. apply K3.
   Qed.
 
   Lemma Rinv_frame g g' r chain w :
-    List.length (recs g') = List.length (recs g) -> List.length (rbs g') = List.length (rbs g) ->
+    List.length (recs g) <= List.length (recs g') -> List.length (rbs g) <= List.length (rbs g') ->
     (r_head (grec g' r) = r_head (grec g r) /\ r_tail (grec g' r) = r_tail (grec g r) /\
      r_cb (grec g' r) = r_cb (grec g r) /\ r_cc (grec g' r) = r_cc (grec g r)) ->
     (forall b, In b chain -> rb_next (grb g' b) = rb_next (grb g b) /\
@@ -178,29 +184,37 @@ Section InvB.
   Qed.
 
   Lemma JR_frame g g' a a' :
-    List.length (recs g') = List.length (recs g) -> List.length (rbs g') = List.length (rbs g) ->
+    List.length (recs g') = List.length (recs g) -> List.length (rbs g) <= List.length (rbs g') ->
     (forall r, r_head (grec g' r) = r_head (grec g r) /\ r_tail (grec g' r) = r_tail (grec g r) /\
                r_cb (grec g' r) = r_cb (grec g r) /\ r_cc (grec g' r) = r_cc (grec g r)) ->
-    (forall b, rb_next (grb g' b) = rb_next (grb g b) /\ List.length (rb_cells (grb g' b)) = List.length (rb_cells (grb g b))) ->
-    (forall b, rbown a' b = rbown a b) ->
+    (forall b r, b < List.length (rbs g) -> rbown a b = RRec r ->
+               rb_next (grb g' b) = rb_next (grb g b) /\ List.length (rb_cells (grb g' b)) = List.length (rb_cells (grb g b))) ->
+    (forall b r, rbown a b = RRec r -> rbown a' b = RRec r) ->
     (forall r, rch a' r = rch a r /\ rw a' r = rw a r /\ moved a' r = moved a r /\ dead a' r = dead a r) ->
-    (forall t, vb_own (bvs a' t) = vb_own (bvs a t) /\ vb_full (bvs a' t) = vb_full (bvs a t) /\ vb_move (bvs a' t) = vb_move (bvs a t) /\
+    (forall t, vb_full (bvs a' t) = vb_full (bvs a t) /\ vb_move (bvs a' t) = vb_move (bvs a t) /\
                vb_cur (bvs a' t) = vb_cur (bvs a t) /\ vb_dead (bvs a' t) = vb_dead (bvs a t)) ->
+    (forall t r, In r (vb_own (bvs a t)) ->
+                 (exists ob, vb_move (bvs a t) = Some (r, ob)) \/ vb_dead (bvs a t) = Some r \/ vb_full (bvs a t) = Some r ->
+                 In r (vb_own (bvs a' t))) ->
     JR g a -> JR g' a'.
   Proof.
-    intros E1 E2 E3 E4 E5 E6 V [J1 J2 J3 J4 J5 J6]. constructor.
+    intros E1 E2 E3 E4 E5 E6 V Vo [J1 J2 J3 J4 J5 J6]. constructor.
     - intros r Hr. rewrite E1 in Hr. destruct (E6 r) as (-> & -> & -> & ->). destruct (E3 r) as (F1 & F2 & F3 & F4).
       destruct (J1 r Hr) as [K|(K1 & K2 & K3 & K4 & K5)]; [left; rewrite F1, F3; exact K|right].
-      split; auto. split; [apply Rinv_frame with (g := g); auto|]. split; [intros b; rewrite E5; apply K3|]. split; auto.
-      destruct K5 as [K5|(t & K5)]; [left; exact K5|right; exists t]. destruct (V t) as (_ & -> & _). exact K5.
-    - intros r. destruct (E6 r) as (_ & _ & -> & _). intros H. destruct (J2 r H) as (t & K). exists t. destruct (V t) as (_ & _ & -> & _). exact K.
-    - intros t r. destruct (V t) as (-> & _ & -> & _). apply J3.
-    - intros t b i n. destruct (V t) as (_ & _ & -> & -> & _). intros H. destruct (J4 t b i n H) as (r & j & K).
-      exists r, j. destruct (E6 r) as (-> & -> & -> & _). exact K.
+      split; auto. split; [apply Rinv_frame with (g := g); auto; try lia|].
+      { intros b Hb. apply E4 with (r := r); [|apply K3; exact Hb]. destruct K2 as [_ Ich _ _ _ _ _]. eapply is_chain_lt; eauto. }
+      split; [intros b Hb; apply E5; apply K3; exact Hb|]. split; auto.
+      destruct K5 as [K5|(t & K5)]; [left; exact K5|right; exists t]. destruct (V t) as (-> & _). exact K5.
+    - intros r. destruct (E6 r) as (_ & _ & -> & _). intros H. destruct (J2 r H) as (t & ob & K). exists t, ob. destruct (V t) as (_ & -> & _). exact K.
+    - intros t r ob. destruct (V t) as (_ & -> & -> & _). intros H. destruct (J3 t r ob H) as (K1 & K2). split; [apply Vo; eauto|].
+      destruct (E6 r) as (-> & _ & -> & _). exact K2.
+    - intros t b i n. destruct (V t) as (_ & -> & -> & _). intros H. destruct (J4 t b i n H) as (r & ob & j & K).
+      exists r, ob, j. destruct (E6 r) as (-> & -> & -> & _). destruct (E3 r) as (_ & _ & -> & ->). exact K.
     - split.
-      + intros t r. destruct (V t) as (-> & _ & _ & _ & ->). destruct (E6 r) as (_ & _ & _ & ->). apply J5.
-      + intros r. destruct (E6 r) as (_ & _ & _ & ->). intros H. destruct (proj2 J5 r H) as (t & K). exists t. destruct (V t) as (_ & _ & _ & _ & ->). exact K.
-    - intros t r. destruct (V t) as (-> & -> & _). apply J6.
+      + intros t r. destruct (V t) as (_ & _ & _ & ->). destruct (E6 r) as (_ & _ & _ & ->). intros H. destruct (proj1 J5 t r H). split; auto.
+      + intros r. destruct (E6 r) as (_ & _ & _ & ->). intros H. destruct (proj2 J5 r H) as (t & K). exists t. destruct (V t) as (_ & _ & _ & ->). exact K.
+    - intros t r. destruct (V t) as (-> & _). intros H. destruct (J6 t r H) as (K1 & K2). split; [apply Vo; auto|].
+      destruct (E6 r) as (-> & _). exact K2.
   Qed.
 
   Lemma JW_frame g g' a a' ds rt rt' :
@@ -250,8 +264,9 @@ Proof.
   - apply JO_frame with (g := g) (a := a); auto. intros r. destruct (A3 r) as (X1&X2&_). auto.
   - apply JK_frame with (g := g) (a := a); auto. intros b. destruct (A4 b) as (X1&X2). rewrite X2. auto.
   - apply JR_frame with (g := g) (a := a); auto.
+    all: try lia.
     all: try solve [intros r; destruct (A3 r) as (X1&X2&X3&X4&X5&X6); auto].
-    all: try solve [intros b; destruct (A4 b) as (X1&X2); rewrite X2; auto].
+    all: try solve [intros b r Hb _; destruct (A4 b) as (X1&X2); rewrite X2; auto].
     all: try solve [intros t; repeat split; reflexivity].
   - apply JW_frame with (g := g) (a := a) (rt := retired_tr tr); auto. intros r _. now apply ec_piB.
 Qed.
